@@ -1239,6 +1239,31 @@ def roots_absolute(ctx: Ctx, v: LocalView, rule: str) -> int:
     return n
 
 
+def entries_apart_from_directories(ctx: Ctx, v: LocalView, rule: str) -> int:
+    """The entry of a path (the link that sync_paths publishes) never has the name of a directory that the entry of a LONGER path needs: with the entry of P at
+    <data>/<segments of P> and the directories of P/x made by makedirs(dirname(<data>/<segments of P/x>)) = <data>/<segments of P>, the two collide - the dictionary
+    model of the property holds '/a' and '/a/b' together, the local store raises FileExistsError / IsADirectoryError on the second commit."""
+    rep = ctx.report
+    effs = v.m.effects_of("sync_paths")
+    entries = [e for e in effs if e.kind in ("RENAME_INTO", "LINK") and mentions_sym(e.term, "PATH") and not unique_sources(e.term)]
+    mkdirs = [e for e in effs if e.kind == "MKDIR" and mentions_sym(e.term, "PATH")]
+    n = 0
+    for e in _dedupe(entries):
+        n += 1
+        E = e.term
+        last_is_segment = isinstance(E, tuple) and E and E[0] == "join" and isinstance(E[-1], tuple) and E[-1][:1] == ("star",) and isinstance(E[-1][1], tuple) and E[-1][1][:1] == ("segs",)
+        clash = [m_ for m_ in mkdirs if m_.term == ("dirname", E)]
+        desc = f"the entry {show(E)} of a path cannot be the directory that a longer path needs"
+        if last_is_segment and clash:
+            rep.bad(rule, _site(v, "sync_paths"), desc, e.where(), [f"{e.where()}: the entry is named by the path's segments alone", f"{clash[0].where()}: the directories of a longer path are "
+                    f"{show(clash[0].term)}: for the path P/x that is the entry of P", "sync_paths({'/a': k1}) then sync_paths({'/a/b': k2}): FileExistsError from os.makedirs; the other order: "
+                    "IsADirectoryError from os.replace and a stray temporary link (demo: /verif/findings/K10_prefix_paths_across_evaluations.py)"], "entry-is-directory-name",
+                    what="a path and a longer path that starts with it cannot both be committed to the local store")
+        else:
+            rep.ok(rule, _site(v, "sync_paths"), desc, e.where())
+    return n
+
+
 def _collect_attrs(t: Any, out: Set[str]) -> None:
     if isinstance(t, tuple) and t:
         if t[0] == "attr":
